@@ -135,6 +135,17 @@ SELECTIONS = [
 
 # ---------------------------------------------------------------------------
 
+def add_refgroup_config(rng, model):
+    """Give the model a generated refgroup forest in its gitconfig (generator shared with C07); returns the entries."""
+    from .props.C07 import gen_forest, render_config
+    refs = sorted(model.refs)
+    if len(refs) < 2:
+        return []
+    entries = gen_forest(rng, refs, deep=rng.random() < 0.2)
+    model.config = (model.config or "") + render_config(entries)
+    return entries
+
+
 def resolve_desc(gitdir, desc):
     """git is the judge: what does the description resolve to?  desc: bytes."""
     if b"\0" in desc:
@@ -228,6 +239,7 @@ def run_case(spec):
     res = {"idx": idx, "findings": {}, "runs": 0, "nontrivial": [], "samples": [], "discarded": 0, "inconclusive": []}
     try:
         model = build_model(rng, prof)
+        forest_entries = add_refgroup_config(rng, model) if rng.random() < 0.3 else []
         gitdir = G.write_model(model, os.path.join(d, "repo"), skip_empty_tree=rng.random() < 0.5,
                                packed_refs=rng.random() < 0.3)
         allobjs = model.all_objects()
@@ -235,9 +247,24 @@ def run_case(spec):
         if msg:
             res["inconclusive"].append("generator self-check: " + msg)
             return res
+        # what git reports as refgroup configuration (ground truth for the selection model)
+        from . import select as S
+        pcfg = G.rgit(gitdir, "config", "--list", "-z", check=False)
+        cfg_entries = [(k.decode("utf-8", "replace"), v.decode("utf-8", "replace")) for k, v in S.parse_config_z(pcfg.stdout)
+                       if k.startswith(b"refgroup.") and v is not None]
+        forest = S.Forest(cfg_entries)
+        if forest.undefined():
+            res["discarded"] += 1
+            return res
+        spec = dict(spec, _forest=forest)
         argvs = []
         nsel = spec.get("nsel", 3)
         sels = [[]] + [rng.choice(SELECTIONS) for _ in range(nsel - 1)]
+        gsyms = [g for g in forest.groups if g and "\n" not in g and not g.startswith("-")]
+        if forest_entries and gsyms:
+            sels[-1] = [rng.choice(["--include", "--exclude"]), "@" + rng.choice(gsyms)]
+            if rng.random() < 0.5:
+                sels[-1] += [rng.choice(["--include", "--exclude"]), "@" + rng.choice(gsyms)]
         cands = verify_roots(gitdir, root_spellings(rng, model, k=4))
         for i, sel in enumerate(sels):
             roots = []
@@ -326,7 +353,7 @@ def tree_model(rng):
     m = G.Model()
     roots = []
     for i in range(rng.randint(1, 5)):
-        style = rng.choice(["deep", "wide", "links", "subs", "bytes", "random", "shared", "empty"])
+        style = rng.choice(["deep", "wide", "links", "subs", "bytes", "random", "shared", "empty", "huge"])
         if style == "deep":
             t = G.Tree([G.Entry(G.FILE, b"f", pool.new_blob(3))])
             for k in range(rng.randint(3, 60)):
@@ -344,6 +371,11 @@ def tree_model(rng):
             t = G.Tree([G.Entry(G.TREE, b"s%d" % j, sub) for j in range(rng.randint(1, 6))])
         elif style == "bytes":
             t = G.Tree([G.Entry(G.FILE, b"big%d" % j, pool.new_blob(rng.choice([10000, 50000, 200000]))) for j in range(rng.randint(1, 3))])
+        elif style == "huge":
+            hb = [G.Blob(b"h%d" % rng.getrandbits(30), declared_size=rng.choice([2 ** 32 - 1, 2 ** 32, 2 ** 32 + 4096, 5 * 2 ** 30, 2 ** 40]))
+                  for _ in range(rng.randint(1, 2))]
+            inner = G.Tree([G.Entry(G.FILE, b"huge%d" % j, x) for j, x in enumerate(hb)] + [G.Entry(G.FILE, b"small", pool.new_blob(6))])
+            t = G.Tree([G.Entry(G.TREE, b"a", inner), G.Entry(G.TREE, b"b", inner)])
         elif style == "shared":
             leaf = pool.new_tree(max_depth=1, max_entries=5)
             mid = G.Tree([G.Entry(G.TREE, b"a", leaf), G.Entry(G.TREE, b"b", leaf), G.Entry(G.TREE, b"c", leaf),
@@ -425,14 +457,36 @@ def one_run(spec, rng, res, model, gitdir, d, sel, roots):
     if spec.get("permute") and rng.random() < spec["permute"]:
         pdir = os.path.join(d, "plan%d" % res["runs"])
         plan = R.make_plan(pdir, [{"sig": "rev-list", "ord": -1, "mode": "permute", "seed": rng.getrandbits(31)}])
+    faulted = False
+    if plan is None and spec.get("shimdir") and rng.random() < 0.06:
+        # a git child that dies somewhere: the run may fail (C10 judges how), but if it reports success the report
+        # must still be the right one
+        pdir = os.path.join(d, "fplan%d" % res["runs"])
+        sig = rng.choice(["for-each-ref", "rev-list", "cat-file --batch-check", "cat-file --batch", "rev-parse --verify",
+                          "config --list", "rev-parse --git-path"])
+        plan = R.make_plan(pdir, [{"sig": sig, "ord": 0, "mode": "fault", "term": rng.choice(["exit:128", "exit:2", "sig:KILL"]),
+                                   "after_bytes": rng.choice([0, 41, 82, 150, 400, 1 << 40])}])
+        faulted = True
+    cut_refs = False
+    if plan is None and spec.get("shimdir") and names == "full" and rng.random() < spec.get("cut_refs", 0.0):
+        pdir = os.path.join(d, "cplan%d" % res["runs"])
+        nrefs = len(model.refs)
+        total = sum(41 + len(o.kind) + 1 + len(str(o.size)) + 1 + len(n) + 1 for n, o in model.refs.items())
+        plan = R.make_plan(pdir, [{"sig": "for-each-ref", "ord": 0, "mode": "fault", "term": "exit:0",
+                                   "after_bytes": max(1, total - rng.randint(1, 12))}])
+        cut_refs = True
     r = R.sizer(binary, gitdir, argv, env=amb, shimdir=spec.get("shimdir"), plan=plan, tmpdir=d)
     res["runs"] += 1
     F = res["findings"]
+    if faulted or cut_refs:
+        res["faulted_runs"] = res.get("faulted_runs", 0) + 1
+        if r.rc != 0 and not r.timed_out:
+            return
 
     def add(facet, item):
         F.setdefault(facet, []).append(item)
 
-    ctx = {"argv": argv, "ambient": amb, "repo_seed": [spec["seed"], spec["idx"], spec.get("profile")], "permuted": plan is not None,
+    ctx = {"argv": argv, "ambient": amb, "fault_injected": faulted, "repo_seed": [spec["seed"], spec["idx"], spec.get("profile")], "permuted": plan is not None,
            "tree_roots": [sp for sp, o in roots if o.kind == "tree"] + [n for n, o in model.refs.items() if o.kind == "tree"]}
     if r.timed_out:
         if R.deadlock_witness(r):
@@ -449,6 +503,17 @@ def one_run(spec, rng, res, model, gitdir, d, sel, roots):
     if js is None:
         add("fail", ("bad-json", "", dict(ctx, problems=probs, out=r.out[:500])))
         return
+    if cut_refs:
+        # only the model-independent clause is judged here: a printed description resolves to the cited object
+        res["cut_ref_runs"] = res.get("cut_ref_runs", 0) + 1
+        for wkey in O.WITNESS:
+            w = P.v1_witness(js, wkey)
+            if w and w[1] is not None and "\ufffd" not in w[1]:
+                got = resolve_desc(gitdir, w[1].encode("utf-8"))
+                if got != w[0]:
+                    add("witness", ("desc-unresolvable", wkey, dict(ctx, oid=w[0], desc=w[1], resolved_to=got,
+                                                                    note="for-each-ref output ended inside its last line")))
+        return
     frames, refmarks, rest = P.parse_stderr(r.err)
     marked = {}
     for plus, name in refmarks:
@@ -456,7 +521,28 @@ def one_run(spec, rng, res, model, gitdir, d, sel, roots):
     if set(marked) != set(model.refs):
         add("fail", ("show-refs-set", "", dict(ctx, got=sorted(marked), want=sorted(model.refs))))
         return
-    rootobjs = [model.refs[n] for n, plus in marked.items() if plus] + [o for _, o in roots]
+    # which references the options select according to the selection model; a disagreement with the program's own '+'
+    # marks is reported (facet "selection") and the census is judged against the MODEL's selection
+    from . import select as S
+    forest = spec.get("_forest") or S.Forest([])
+    try:
+        rules = []
+        i_ = 0
+        while i_ < len(sel):
+            tok = sel[i_]
+            if tok in ("--include", "--exclude") and i_ + 1 < len(sel):
+                rules.append(S.parse_opt([tok, sel[i_ + 1]]))
+                i_ += 2
+            else:
+                rules.append(S.parse_opt([tok]))
+                i_ += 1
+        want_marks = {n: S.selected(rules, len(roots), n, forest) for n in model.refs}
+    except Exception:
+        want_marks = dict(marked)
+    if want_marks != marked:
+        diff = sorted(n for n in marked if marked[n] != want_marks[n])
+        add("selection", ("marks-differ-from-selection-model", "", dict(ctx, refs=diff[:5], want=[want_marks[n] for n in diff[:5]])))
+    rootobjs = [model.refs[n] for n, plus in want_marks.items() if plus] + [o for _, o in roots]
     ex = O.compute(rootobjs)
     for facet, keys in FACETS.items():
         for k, want, got in O.compare_numeric(ex, js, keys):
